@@ -526,6 +526,104 @@ fn sequential_round(case_seed: u64, r: &mut Report) {
     r.eval(hash_str(&format!("{}{:?}", key, trace)), true);
 }
 
+/// Engine layered on the store: VectorEngine single-key operations on 1-3 contended keys.
+/// Every stored vector is uniform (all elements = write id), so a torn or mixed read is visible.
+fn engine_round(case_seed: u64, r: &mut Report) {
+    use vector_engine::VectorEngine;
+    let mut rng = Rng::new(case_seed);
+    let ve = Arc::new(VectorEngine::with_store(TensorStore::new()));
+    let nkeys = 1 + rng.below(3);
+    let threads = 2 + rng.below(5);
+    let n_ops = 8 + rng.below(12);
+    let clock = Arc::new(AtomicU64::new(1));
+    let barrier = Arc::new(Barrier::new(threads));
+    let handles: Vec<_> = (0..threads)
+        .map(|t| {
+            let (ve, clock, barrier) = (ve.clone(), clock.clone(), barrier.clone());
+            let mut rng = Rng::new(case_seed ^ (t as u64 + 1).wrapping_mul(0x51ED_270B));
+            std::thread::spawn(move || {
+                let mut recs: Vec<Rec> = Vec::new();
+                let mut anomalies: Vec<String> = Vec::new();
+                let mut ctr = 0u64;
+                barrier.wait();
+                for _ in 0..n_ops {
+                    let ki = rng.below(nkeys);
+                    let key = format!("doc{}", ki);
+                    match rng.weighted(&[35, 40, 10, 15]) {
+                        0 => {
+                            ctr += 1;
+                            let wid = (t as u64 * 400_000 + ctr) * 4;
+                            let dim = *rng.pick(&[8usize, 384, 384]);
+                            let inv = clock.fetch_add(1, Ordering::SeqCst);
+                            let ok = ve.store_embedding(&key, vec![wid as f32; dim]).is_ok();
+                            let res = clock.fetch_add(1, Ordering::SeqCst);
+                            recs.push(Rec { key: ki, ev: Event { proc_id: t as u32, op: Op::Put(wid), inv, res: if ok { res } else { u64::MAX } } });
+                        }
+                        1 => {
+                            let inv = clock.fetch_add(1, Ordering::SeqCst);
+                            let got = ve.get_embedding(&key);
+                            let res = clock.fetch_add(1, Ordering::SeqCst);
+                            match got {
+                                Ok(v) => {
+                                    let w = v.first().copied().unwrap_or(-1.0);
+                                    if v.iter().any(|x| *x != w) || !(v.len() == 8 || v.len() == 384) {
+                                        anomalies.push(format!("get_embedding({}) returned a vector that no single store_embedding wrote: len {} first {} ...", key, v.len(), w));
+                                    } else {
+                                        recs.push(Rec { key: ki, ev: Event { proc_id: t as u32, op: Op::Get(Some(w as u64)), inv, res } });
+                                    }
+                                }
+                                Err(_) => recs.push(Rec { key: ki, ev: Event { proc_id: t as u32, op: Op::Get(None), inv, res } }),
+                            }
+                        }
+                        2 => {
+                            let inv = clock.fetch_add(1, Ordering::SeqCst);
+                            let ok = ve.delete_embedding(&key).is_ok();
+                            let res = clock.fetch_add(1, Ordering::SeqCst);
+                            if ok {
+                                recs.push(Rec { key: ki, ev: Event { proc_id: t as u32, op: Op::Delete(None), inv, res } });
+                            }
+                        }
+                        _ => {
+                            let inv = clock.fetch_add(1, Ordering::SeqCst);
+                            let b = ve.exists(&key);
+                            let res = clock.fetch_add(1, Ordering::SeqCst);
+                            recs.push(Rec { key: ki, ev: Event { proc_id: t as u32, op: Op::Exists(b), inv, res } });
+                        }
+                    }
+                }
+                (recs, anomalies)
+            })
+        })
+        .collect();
+    let mut recs = Vec::new();
+    let replay = json!({"part": "engines", "case_seed": case_seed});
+    for h in handles {
+        let (rr, an) = h.join().expect("worker");
+        recs.extend(rr);
+        for a in an.into_iter().take(2) {
+            r.violation("engine:vector:read-mixture-or-unwritten-vector", a, replay.clone());
+        }
+    }
+    r.count("engine_events_recorded", recs.len() as u64);
+    for ki in 0..nkeys {
+        let evs: Vec<Event> = recs.iter().filter(|x| x.key == ki).map(|x| x.ev).collect();
+        if evs.is_empty() || evs.len() > 128 {
+            continue;
+        }
+        match lin::check(&evs, None, 400_000) {
+            Verdict::Linearizable => r.count("engine_key_histories_linearizable", 1),
+            Verdict::Inconclusive => r.inconclusive("linearizability search budget exhausted"),
+            Verdict::NotLinearizable => {
+                let mut e2 = evs.clone();
+                e2.sort_by_key(|e| e.inv);
+                r.violation("engine:vector:history-not-linearizable", format!("VectorEngine key doc{}: no sequential order explains {:?}", ki, e2), replay.clone());
+            }
+        }
+    }
+    let nt = overlapped(&recs);
+    r.eval(order_hash(&recs) ^ 0xE, nt);
+}
+
 fn main() {
     let args = Args::parse();
     let started = Instant::now();
@@ -542,6 +640,7 @@ fn main() {
         for _ in 0..200 {
             match rp["part"].as_str().unwrap_or("stress") {
                 "parked" => parked_round(s, &mut total, &args),
+                "engines" => engine_round(s, &mut total),
                 "sequential" => sequential_round(s, &mut total),
                 _ => stress_round(s, &mut total, &args),
             }
@@ -565,6 +664,11 @@ fn main() {
             let rep = par_cases(args.threads.min(8), args.seed ^ 0x77, n, args.budget(30, 300), move |_i, s, r| parked_round(s, r, &a2));
             total.merge(rep);
         }
+        if part == "all" || part == "engines" {
+            let n = args.by_tier(1_500u64, 60_000u64);
+            let rep = par_cases(outer, args.seed ^ 0xE6, n, args.budget(25, 400), |_i, s, r| engine_round(s, r));
+            total.merge(rep);
+        }
         if part == "all" || part == "sequential" {
             let n = args.by_tier(300u64, 5_000u64);
             let rep = par_cases(2, args.seed ^ 0x99, n, args.budget(20, 120), |_i, s, r| sequential_round(s, r));
@@ -573,7 +677,7 @@ fn main() {
     }
     let meta = Meta {
         property: "C11",
-        rule: "stress round = one real TensorStore, 2-8 OS threads x 6-19 operations on 1-4 contended keys of classes plain/emb(384-dim slab vector, other dim, none)/node/table/edge/_cache, non-durable or durable (manual / immediate sync), half of the rounds with seeded jitter at the put_durable/delete_durable hook points; every call recorded at the client boundary (atomic tick before and after); values self-describing (write id in every field and vector element). Oracles: value integrity per read, Wing-Gong linearizability per key (scan decomposed per key), recovered-state == live state after quiescence. Distinct = hash of the observed call order (thread, op, key by call tick); non-trivial = at least two operations of different threads on one key overlapped in time. parked rounds = the deterministic two-writer schedule at put_durable:after_log; sequential rounds = single-thread register semantics.",
+        rule: "stress round = one real TensorStore, 2-8 OS threads x 6-19 operations on 1-4 contended keys of classes plain/emb(384-dim slab vector, other dim, none)/node/table/edge/_cache, non-durable or durable (manual / immediate sync), half of the rounds with seeded jitter at the put_durable/delete_durable hook points; every call recorded at the client boundary (atomic tick before and after); values self-describing (write id in every field and vector element). Oracles: value integrity per read, Wing-Gong linearizability per key (scan decomposed per key), recovered-state == live state after quiescence. Distinct = hash of the observed call order (thread, op, key by call tick); non-trivial = at least two operations of different threads on one key overlapped in time. parked rounds = the deterministic two-writer schedule at put_durable:after_log; sequential rounds = single-thread register semantics; engine rounds = the same history check on VectorEngine::{store_embedding,get_embedding,delete_embedding,exists} over one shared store.",
         assumptions: vec![
             "the Ok/NotFound result of delete is not judged (Delete is modelled as a blind write); a failed delete records no event".into(),
             "a prefix scan is judged per key (each listed/absent contended key is a read inside the scan's interval), not as an atomic snapshot".into(),
@@ -582,7 +686,7 @@ fn main() {
         floors: if args.replay.is_some() || part != "all" {
             vec![("evaluations", 5)]
         } else {
-            vec![("events_recorded", 5_000), ("rounds_with_overlapping_ops", 100), ("key_histories_linearizable", 200), ("parked_at_after_log", 5), ("durable_rounds_recovered", 20), ("sequential_reads_checked", 500)]
+            vec![("events_recorded", 5_000), ("rounds_with_overlapping_ops", 100), ("key_histories_linearizable", 200), ("parked_at_after_log", 5), ("durable_rounds_recovered", 20), ("sequential_reads_checked", 500), ("engine_key_histories_linearizable", 100)]
         },
         exhaustive: false,
     };
